@@ -9,6 +9,7 @@ import (
 	"github.com/ludo-technologies/pyscn/app"
 	"github.com/ludo-technologies/pyscn/domain"
 	"github.com/ludo-technologies/pyscn/internal/analyzer"
+	"github.com/ludo-technologies/pyscn/internal/config"
 	"github.com/ludo-technologies/pyscn/service"
 	"github.com/spf13/cobra"
 )
@@ -131,6 +132,15 @@ func (c *CheckCommand) runCheck(cmd *cobra.Command, args []string) error {
 			return fmt.Errorf("invalid --select flag: %w", err)
 		}
 	}
+
+	// Resolve the config file once, starting from the first target path (like
+	// `analyze` does), so every analysis phase reads the project's own config
+	// instead of whatever is discoverable from the working directory.
+	resolvedConfigPath, err := config.NewTomlConfigLoader().ResolveConfigPath(c.configFile, args[0])
+	if err != nil {
+		return fmt.Errorf("failed to resolve configuration: %w", err)
+	}
+	c.configFile = resolvedConfigPath
 
 	// Create use case configuration
 	skipComplexity, skipDeadCode, skipClones, skipDeps, skipMockdata := c.determineEnabledAnalyses()
